@@ -60,6 +60,10 @@ func c05Options(root *yamlgen.L) []c05Deco {
 			if len(path) > 0 {
 				out = append(out, c05Deco{p, "anchor", "x"})
 			}
+			if !inFlow {
+				// a comment behind a collection written on one line (flow style, or empty): `k: [1, 2] # c`
+				out = append(out, c05Deco{p, "line", "line c"})
+			}
 			for i, c := range n.Kids {
 				if n.Kind == val.Map {
 					walk(n.Keys[i], append(append([]int{}, p...), -1-i), inFlow, true)
@@ -165,6 +169,9 @@ func c05Apply(root *yamlgen.L, d c05Deco) bool {
 		if n.Line != "" || n.Style == "literal" || n.Style == "folded" {
 			return false
 		}
+		if (n.Kind == val.Seq || n.Kind == val.Map) && n.Style != "flow" && len(n.Kids) > 0 {
+			return false // a block collection has no line of its own
+		}
 		n.Line = d.Param
 	case "foot":
 		if n.Foot != "" {
@@ -193,6 +200,11 @@ func (cs c05Case) build() (docs []*yamlgen.L, text string, ok bool) {
 		return []*yamlgen.L{base}, "# leading block\n# second line\n\n" + one, true
 	case "lead-comment-start":
 		return []*yamlgen.L{base}, "# leading block\n---\n" + one, true
+	case "bom-lead-comment":
+		// a byte order mark in front of a header of two comment paragraphs
+		return []*yamlgen.L{base}, "\ufeff# leading block\n\n# second line\n" + one, true
+	case "indented-lead-comment":
+		return []*yamlgen.L{base}, "    # leading block\n\n    # second line\n" + one, true
 	case "two-docs":
 		other := yamlgen.FromV(fromJSONText(`{"o": 1}`))
 		return []*yamlgen.L{base, other}, one + "---\n" + yamlgen.Render(other), true
@@ -233,19 +245,27 @@ func c05Attrs(n *yaml.Node, sb *strings.Builder, depth int) {
 	cm := func(kind, text string) {
 		for _, ln := range strings.Split(strings.TrimSpace(text), "\n") {
 			if strings.TrimSpace(ln) != "" {
-				fmt.Fprintf(sb, " %s(%s)", kind, strings.TrimSpace(ln))
+				fmt.Fprintf(sb, "\x00%s(%s)", kind, strings.TrimSpace(ln))
 			}
 		}
 	}
-	cm("C", n.HeadComment)
 	if n.Kind == yaml.DocumentNode {
-		sb.WriteString(" DOC")
-	} else {
+		// whether a header comment belongs to the document or to its root node is attachment, not order
+		sb.WriteString("\x00DOC")
+	}
+	// a block collection has no text of its own: a comment in front of it and a comment in front of its first entry are the same place
+	blockColl := (n.Kind == yaml.SequenceNode || n.Kind == yaml.MappingNode) && n.Style&yaml.FlowStyle == 0 && len(n.Content) > 0
+	cm("C", n.HeadComment)
+	if n.Kind != yaml.DocumentNode {
 		alias := ""
 		if n.Alias != nil {
 			alias = n.Alias.Anchor
 		}
-		fmt.Fprintf(sb, " N(k%d t=%s v=%q st=%d a=%q al=%q)", n.Kind, n.ShortTag(), n.Value, n.Style, n.Anchor, alias)
+		mark := "N"
+		if blockColl {
+			mark = "NB"
+		}
+		fmt.Fprintf(sb, "\x00%s(k%d t=%s v=%q st=%d a=%q al=%q)", mark, n.Kind, n.ShortTag(), n.Value, n.Style, n.Anchor, alias)
 	}
 	cm("L", n.LineComment)
 	if n.Kind == yaml.MappingNode {
@@ -264,6 +284,22 @@ func c05Attrs(n *yaml.Node, sb *strings.Builder, depth int) {
 		}
 	}
 	cm("C", n.FootComment)
+}
+
+// c05Canon: a block collection has no text of its own, so a comment in front of it and a comment in front of its first entry
+// stand at the same place; the collection's token is moved in front of the comments that directly precede it.
+func c05Canon(stream string) string {
+	toks := strings.Split(stream, "\x00")
+	for changed := true; changed; {
+		changed = false
+		for i := 1; i < len(toks); i++ {
+			if strings.HasPrefix(toks[i], "NB(") && strings.HasPrefix(toks[i-1], "C(") {
+				toks[i], toks[i-1] = toks[i-1], toks[i]
+				changed = true
+			}
+		}
+	}
+	return strings.Join(toks, " ")
 }
 
 func c05NodeToV(n *yaml.Node, depth int) *val.V {
@@ -371,8 +407,8 @@ func c05Check(cs c05Case) (kind, detail string) {
 		var a, b strings.Builder
 		c05Attrs(inNodes[i], &a, 0)
 		c05Attrs(outNodes[i], &b, 0)
-		if a.String() != b.String() {
-			return c05Tag("presentation", rootScalar), fmt.Sprintf("document %d attributes differ\n in: %s\nout: %s\noutput:\n%s--- input:\n%s", i, a.String(), b.String(), out, text)
+		if as, bs := c05Canon(a.String()), c05Canon(b.String()); as != bs {
+			return c05Tag("presentation", rootScalar), fmt.Sprintf("document %d attributes differ\n in: %s\nout: %s\noutput:\n%s--- input:\n%s", i, as, bs, out, text)
 		}
 	}
 	// every comment of the input is in the output exactly as often
@@ -406,8 +442,8 @@ func c05Run(c *fw.Ctx) error {
 		shapes = append(shapes, fromJSONText(e))
 	}
 	maxDeco := 2
-	streams := []string{"", "explicit-start", "lead-comment", "lead-comment-start", "two-docs", "three-docs", "huge-lead-comment"}
-	c.Res.Bound = fmt.Sprintf("%d shapes (all of <= %d content nodes over 3 scalars and 2 keys, plus 4 deeper ones) x every set of <= %d decorations (5 scalar styles, %d hazard texts, tags, anchor+alias, head/line/foot comments, flow) x 6 stream forms at <= 1 decoration (plus a 70 KiB header line on every shape)", len(shapes), n, maxDeco, len(c05Texts))
+	streams := []string{"", "explicit-start", "lead-comment", "lead-comment-start", "two-docs", "three-docs", "bom-lead-comment", "indented-lead-comment", "huge-lead-comment"}
+	c.Res.Bound = fmt.Sprintf("%d shapes (all of <= %d content nodes over 3 scalars and 2 keys, plus 4 deeper ones) x every set of <= %d decorations (5 scalar styles, %d hazard texts, tags, anchor+alias, head/line/foot comments, flow) x 8 stream forms at <= 1 decoration (explicit start, header comment block with and without a byte order mark or indentation, two and three documents) (plus a 70 KiB header line on every shape)", len(shapes), n, maxDeco, len(c05Texts))
 	var idx int64
 	run := func(cs c05Case, order int64) {
 		idx++
@@ -475,7 +511,7 @@ func c05Run(c *fw.Ctx) error {
 		}
 		for i, d1 := range opts {
 			run(c05Case{Shape: shape, Decos: []c05Deco{d1}}, 1e6+int64(si*1000+i))
-			for _, st := range streams[1:6] {
+			for _, st := range streams[1:8] {
 				run(c05Case{Shape: shape, Decos: []c05Deco{d1}, Stream: st}, 2e6+int64(si*1000+i))
 			}
 			if sh.Size() > 3 && !c.Thorough() {
